@@ -4,7 +4,7 @@ from __future__ import annotations
 
 from collections import deque
 
-from ..comp import CompScenario
+from ..comp import CompScenario, shape_from_spec, spec_leaves, to_leaf, spread, rand_leaf
 from ..propbase import PropBase, make_plan, phase_at
 
 PORTS = ("write", "read", "peek", "clear")
@@ -19,18 +19,53 @@ class Scen(CompScenario):
         self.col = max(self.rw, self.ww)
         # write_width equal to read_width is also reached through the constructor default (None)
         ww_arg = None if (c.get("ww_default") and self.ww == self.rw) else self.ww
-        self.dut = WideFifo(c["width"], self.depth, self.rw, ww_arg, write_max_count=self.mc)
+        # element shape: a spec of comp.shape_from_spec (unsigned / signed / array / struct); old replay files have "width"
+        self.shape = c.get("shape", c.get("width"))
+        self.lane = spec_leaves(self.shape)  # (path, width, signed) of the leaves of one element; the first is the tag
+        self.mul = c.get("tagmul", 1)
+        self.dut = WideFifo(shape_from_spec(self.shape, True), self.depth, self.rw, ww_arg, write_max_count=self.mc)
         self.top.add("dut", self.dut)
-        self.caller("write", self.dut.write)
+        wr = self.caller("write", self.dut.write)
+        # the data lanes of write are driven as one packed value per cycle (pre_observe) instead of leaf by leaf: the
+        # stimulus keeps its per-leaf entries "write.i.data.<lane>[.<leaf>]" (old replay files stay valid), the kernel
+        # just does not drive them one by one
+        self.wnames = [self.lane_names("write.i", k) for k in range(self.ww)]
+        for names in self.wnames:
+            for nm in names:
+                del self.inp[nm]
+        self.wdata = wr.data_in.data.as_value()
+        assert len(self.wdata) == self.ww * sum(w for _, w, _ in self.lane)
+        self.wdata_last = 0
         self.caller("read", self.dut.read)
         self.caller("peek", self.dut.peek)
         self.caller("clear", self.dut.clear)
+        self.ports = list(PORTS)
+        if c.get("peek2"):  # a second, independent caller of peek (documented as nonexclusive)
+            self.caller("peek2", self.dut.peek)
+            self.ports.append("peek2")
         self.q: deque = deque()  # reference model
         self.rd_pos = 0  # elements removed / appended since the last clear, modulo depth (row/column position)
         self.wr_pos = 0
         self.tag = 0
-        self.mask = (1 << c["width"]) - 1
         return self.top
+
+    def lane_names(self, port, k):
+        """Signal names of the leaves of data element k of `port` ("write.i" / "read.o" / ...)."""
+        return [f"{port}.data.{k}" + (f".{path}" if path else "") for path, _, _ in self.lane]
+
+    def pre_observe(self, ctx, cyc, stim):
+        packed, sh = 0, 0
+        for names in self.wnames:  # array elements, and the leaves of an element, lie in layout order from bit 0 up
+            for nm, (_, w, _) in zip(names, self.lane):
+                packed |= (stim.get(nm, 0) & ((1 << w) - 1)) << sh
+                sh += w
+        if packed != self.wdata_last:
+            ctx.set(self.wdata, packed)
+            self.wdata_last = packed
+
+    def element(self, stim, k):
+        """Data element k of the write arguments as the hardware sees it."""
+        return tuple(to_leaf(stim.get(nm, 0), w, sgn) for nm, (_, w, sgn) in zip(self.wnames[k], self.lane))
 
     # ---- stimulus -------------------------------------------------------------------------
     def stimulus(self, rng, cyc):
@@ -96,9 +131,12 @@ class Scen(CompScenario):
             if need is None:  # an upper bound on count: tight half of the time
                 need = wcount if rng.random() < 0.5 else rng.randint(wcount, ww)
             stim["write.i.max_count"] = max(need, wcount)
-        for k in range(ww):  # unique tags in every data lane (also the lanes beyond count)
+        for k in range(ww):  # unique tags in every data lane (also the lanes beyond count), spread over the whole width
             self.tag += 1
-            stim[f"write.i.data.{k}"] = self.tag & self.mask
+            for j, (name, (_, w, sgn)) in enumerate(zip(self.wnames[k], self.lane)):
+                stim[name] = spread(self.tag, self.mul, w, sgn) if j == 0 else rand_leaf(rng, w, sgn)
+        if self.cfg.get("peek2"):
+            stim["peek2.en"] = int(rng.random() < max(pp, 0.5))
         return stim
 
     # ---- oracle -----------------------------------------------------------------------------
@@ -106,6 +144,7 @@ class Scen(CompScenario):
         depth, rw, ww, col, q = self.depth, self.rw, self.ww, self.col, self.q
         L = len(q)
         R = depth - L
+        PORTS = self.ports
         en = {p: stim.get(f"{p}.en", 0) for p in PORTS}
         done = {p: obs[f"{p}.done"] for p in PORTS}
         wcount = stim.get("write.i.count", 0)
@@ -148,19 +187,32 @@ class Scen(CompScenario):
             self.expect(got_n == nread, "read-count-mismatch",
                         f"read(count={rcount}) returned count={got_n} at level {L}/{depth}, read_width {rw}: "
                         f"expected {nread}", port="read")
-            got = [obs[f"read.o.data.{k}"] for k in range(nread)]
+            got = [tuple(obs[nm] for nm in self.lane_names("read.o", k)) for k in range(nread)]
+            self.data_cov(got)
             self.expect(got == head[:nread], "read-data-mismatch",
                         f"read(count={rcount}) returned {got}, oldest elements are {head[:nread]} (level {L}/{depth}, "
                         f"read position {self.rd_pos})", port="read")
-        if pk:
+        for pp in ("peek", "peek2"):
+            if not done.get(pp):
+                continue
             npeek = min(L, rw)
-            got_n = obs["peek.o.count"]
+            got_n = obs[f"{pp}.o.count"]
             self.expect(got_n == npeek, "peek-count-mismatch",
-                        f"peek returned count={got_n} at level {L}/{depth}, read_width {rw}: expected {npeek}", port="peek")
-            got = [obs[f"peek.o.data.{k}"] for k in range(npeek)]
+                        f"{pp} returned count={got_n} at level {L}/{depth}, read_width {rw}: expected {npeek}", port=pp)
+            got = [tuple(obs[nm] for nm in self.lane_names(f"{pp}.o", k)) for k in range(npeek)]
             self.expect(got == head, "peek-data-mismatch",
-                        f"peek returned {got}, oldest elements are {head} (level {L}/{depth}, read position {self.rd_pos})",
+                        f"{pp} returned {got}, oldest elements are {head} (level {L}/{depth}, read position {self.rd_pos})",
+                        port=pp)
+        if "peek2" in en and en["peek"] and en["peek2"]:
+            # peek is documented as nonexclusive: two callers do not exclude each other, so one is served iff the other
+            # is (whether peek is ready at all is not part of the statement and not judged)
+            self.expect(done["peek"] == done["peek2"], "simultaneous-peeks-not-served",
+                        f"two callers request the nonexclusive peek at level {L}: served {done['peek']}/{done['peek2']}",
                         port="peek")
+            if done["peek"]:
+                self.hit("two_peek_callers_served")
+                if r:
+                    self.hit("two_peek_callers_served_with_read")
         # readiness of read / peek / clear is not part of the statement: counted, not judged
         for p in ("read", "peek"):
             if en[p]:
@@ -190,6 +242,8 @@ class Scen(CompScenario):
                 self.hit("became_full")
             if wcount == 0:
                 self.hit("write_zero_count")
+            if wcount >= 5:
+                self.hit("write_5_or_more_elements")
             if self.mc and wcount < wneed:
                 self.hit("write_count_below_max_count")
             wc = self.wr_pos % col
@@ -245,11 +299,26 @@ class Scen(CompScenario):
         self.rd_pos = (self.rd_pos + nread) % depth
         if w:
             for k in range(wcount):
-                q.append(stim.get(f"write.i.data.{k}", 0))
+                q.append(self.element(stim, k))
             self.wr_pos = (self.wr_pos + wcount) % depth
         if c:
             q.clear()
             self.rd_pos = self.wr_pos = 0
+
+    def data_cov(self, got):
+        """What kind of elements came back intact."""
+        for el in got:
+            for (f, w, sgn), v in zip(self.lane, el):
+                if w >= 10 and (v if v >= 0 else v + (1 << w)) >> 9:
+                    self.hit("returned_value_with_bits_above_9")
+                if w > 16 and (v if v >= 0 else v + (1 << w)) >> 16:
+                    self.hit("returned_value_with_bits_above_16")
+                if sgn and v < 0:
+                    self.hit("returned_negative_signed_value")
+        if got and len(self.lane) > 1:
+            self.hit("returned_struct_or_array_element")
+        if len(got) >= 5:
+            self.hit("read_5_or_more_elements")
 
 
 class Prop(PropBase):
@@ -258,7 +327,8 @@ class Prop(PropBase):
         "quick": {"runs": 256, "selftest_runs": 4},
         "thorough": {"runs": 8000, "selftest_runs": 32},
     }
-    rule = ("one run = one (depth, read_width, write_width, write_max_count, element width) configuration driven for "
+    rule = ("one run = one (depth up to 16, read_width / write_width 1-4 and a share up to 8, write_max_count, element shape: "
+            "unsigned 12-64 bit / signed / array / struct) configuration, a share with a second peek caller, driven for "
             "80-240 cycles by a seeded phase plan (random / fill / drain / ping-pong / refuse (one more than fits vs just "
             "fits) / flush / idle), any subset of read(count)/peek/write(count[, max_count])/clear per cycle, unique tags "
             "in all data lanes; distinct = distinct (configuration, level, read position modulo depth, executed calls "
@@ -272,7 +342,10 @@ class Prop(PropBase):
                     "read_ends_exactly_at_row_end", "read_crosses_row_end", "read_pointer_wraps_depth",
                     "read_does_not_see_same_cycle_write", "peek_limited_by_level", "read_and_write_same_cycle",
                     "peek_with_read", "clear_with_write", "clear_with_read", "clear_at_full",
-                    "clear_at_unaligned_pointers", "read_requested_at_empty"]
+                    "clear_at_unaligned_pointers", "read_requested_at_empty",
+                    "returned_value_with_bits_above_9", "returned_value_with_bits_above_16", "returned_negative_signed_value",
+                    "returned_struct_or_array_element", "read_5_or_more_elements", "write_5_or_more_elements",
+                    "two_peek_callers_served", "two_peek_callers_served_with_read"]
     real = ["transactron.lib.fifo.WideFifo", "transactron.lib.adapters.AdapterTrans",
             "TransactionManager + scheduler (validate_arguments)", "amaranth.lib.memory.Memory", "amaranth pysim"]
     stubs = ["cycle driver (stimulus)", "deque reference model"]
@@ -281,22 +354,58 @@ class Prop(PropBase):
     assumptions = ["fullness / emptiness (what a write may add, what a read / peek returns) are judged on the queue content at the "
                    "beginning of the cycle; of the calls executed in one cycle `clear` is applied last",
                    "read / write counts stay inside range(width + 1) of their layouts and count <= max_count (premise)",
-                   "readiness of read, peek and clear is not part of the statement: counted, not judged"]
+                   "readiness of read, peek and clear is not part of the statement: counted, not judged",
+                   "peek is documented as nonexclusive: of two simultaneous callers of peek one is served iff the other is",
+                   "write(count) with count above write_width is not documented (the count field can hold such values when "
+                   "write_width + 1 is not a power of two): not generated (premise)"]
 
     def gen_config(self, rng, tier, idx):
         big = tier == "thorough"
         rw = rng.randint(1, 4)
         ww = rw if rng.random() < 0.35 else rng.randint(1, 4)
+        wide_ports = rng.random() < 0.15  # a share of the runs: up to 8 elements per call, depth up to 16
+        if wide_ports:
+            rw = rng.randint(1, 8)
+            ww = rw if rng.random() < 0.35 else rng.randint(1, 8)
+            if max(rw, ww) < 5:
+                rw = rng.randint(5, 8)
         col = max(rw, ww)
-        limit = 24 if big else 12
+        limit = 24 if big else (16 if wide_ports else 12)
         rows = rng.randint(1, limit // col)
         if rows > 3 and rng.random() < 0.5:
             rows = rng.randint(1, 3)  # few rows: pointers wrap often
         cycles = rng.randint(80, 400 if big else 240)
+        if wide_ports:  # the simulated design is several times larger: shorter runs
+            cycles = rng.randint(80, 240 if big else 150)
         kinds = ["random", "random", "fill", "drain", "pingpong", "pingpong", "refuse", "refuse", "flush", "idle"]
-        return {"depth": rows * col, "read_width": rw, "write_width": ww, "ww_default": rng.random() < 0.5,
-                "write_max_count": rng.random() < 0.4, "width": rng.choice([12, 14, 16]), "cycles": cycles,
-                "sched": rng.choice(["eager", "eager", "rr"]), "plan": make_plan(rng, cycles, kinds, min_len=4, max_len=36)}
+        cfg = {"depth": rows * col, "read_width": rw, "write_width": ww, "ww_default": rng.random() < 0.5,
+               "write_max_count": rng.random() < 0.4, "width": rng.choice([12, 14, 16]), "cycles": cycles,
+               "sched": rng.choice(["eager", "eager", "rr"]), "plan": make_plan(rng, cycles, kinds, min_len=4, max_len=36)}
+        # element shape: the first leaf carries the tag (>= 12 bits: up to write_width * cycles unique tags).  The size
+        # of the simulated design grows with leaves x columns, so many columns go with scalar elements only and
+        # struct / array elements have at most 3 leaves (2 with 4 columns)
+        r = rng.random()
+        few = 2 if col >= 4 else 3
+        if wide_ports:
+            shape = rng.choice([cfg["width"], cfg["width"], 24, 32, ["s", 12], ["s", 16]])
+        elif r < 0.4:
+            shape = cfg["width"]
+        elif r < 0.55:
+            shape = rng.choice([24, 32, 33, 48, 64])
+        elif r < 0.7:
+            shape = ["s", rng.choice([12, 16, 33])]
+        elif r < 0.8:
+            shape = ["a", rng.choice([12, 16, ["s", 13]]), rng.randint(1, few)]
+        else:
+            extra = rng.choice([[1], [3], [31], [["s", 7]], [64], [1, ["s", 2]], [8, 40], [[["m0", 5], ["m1", ["s", 9]]]]])
+            shape = [["tag", rng.choice([12, 16, 32, ["s", 14]])]] + [[f"f{k}", x] for k, x in enumerate(extra)][:few - 1]
+            if few == 2 and len(spec_leaves(shape)) > 2:
+                shape = shape[:1] + [["f0", 1]]
+        del cfg["width"]
+        cfg["shape"] = shape
+        cfg["tagmul"] = rng.getrandbits(64) | 1
+        cfg["peek2"] = int(rng.random() < 0.35)
+        return cfg
 
     def make(self, cfg):
         return Scen(cfg)
@@ -305,7 +414,8 @@ class Prop(PropBase):
         return {"port": (viol.get("info") or {}).get("port"), "max_count": cfg["write_max_count"]}
 
     def cfg_signature(self, cfg):
-        return [cfg["depth"], cfg["read_width"], cfg["write_width"], cfg["write_max_count"], cfg["width"], cfg["sched"]]
+        return [cfg["depth"], cfg["read_width"], cfg["write_width"], cfg["write_max_count"], cfg.get("shape", cfg.get("width")),
+                cfg["sched"], cfg.get("peek2", 0)]
 
     def shrink_cfg(self, cfg):
         col = max(cfg["read_width"], cfg["write_width"])
